@@ -6,9 +6,10 @@ c20 = importlib.import_module("props.C20")
 hx, fld, num = c20.hx, c20.fld, c20.num
 
 GSHARD = 3000
-ESHARD = 40
+ESHARD = 40       # summaries per generated file, and ...
+EVOLUME = 220     # ... rows looked up / patched per generated file (a file costs roughly 0.05 s per unit)
 
-IMPORTS = "From Crem Require Import Base.Res Base.Fl CsvTable GoCast CsvTableCorr SummaryRoundTrip SummaryCorr.\n"
+IMPORTS = "From Coq Require Import NArith.\nFrom Crem Require Import Base.Res Base.Fl CsvTable GoCast CsvTableCorr SummaryRoundTrip SummaryActions SummaryCorr.\n"
 
 
 def gobs(j):
@@ -28,6 +29,15 @@ def pobs(o):
     return {"400": "P400", "true": "PTrue", "false": "PFalse", "none": "PNone", "panic": "PPanic"}.get(o, "POther")
 
 
+def optn(v):
+    """flags as a number (bit k = action k), in hexadecimal (Coq converts long decimal literals slowly)"""
+    return "None" if v is None else "(Some 0x%x%%N)" % int(v)
+
+
+def opts(v):
+    return "None" if v is None else "(Some %s)" % hx(v)
+
+
 def e2e_term(c):
     if c.get("csv") is None:
         recs = "None"
@@ -35,19 +45,24 @@ def e2e_term(c):
         recs = "(Some %s)" % g.lst([g.lst([fld(f) for f in r]) for r in c["csv"]])
     asis = g.lst(["(%s, %s)" % (hx(a["name"]), num(a)) for a in c.get("asis", [])])
     post = {"200": "Post200", "400": "Post400", "panic": "PostPanic"}.get(c.get("post"), "PostOther")
-    gets = g.lst(["(%s, %s)" % (hx(x["label"]), gobs(x)) for x in c.get("gets", [])])
-    patches = g.lst(["(%s, %s, %s)" % (hx(p["enc"]), "None" if p["recode"] is None else "(Some %s)" % hx(p["recode"]), pobs(p["obs"]))
+    gets = g.lst(["(%s, %s, %s)" % (hx(x["label"]), gobs(x), optn(x.get("act"))) for x in c.get("gets", [])])
+    patches = g.lst(["mkP %s %s %s %s %s" % (hx(p["enc"]), opts(p["recode"]), pobs(p["obs"]), optn(p.get("act")), opts(p.get("menc")))
                      for p in c.get("patches", [])])
     pre = g.lst(["(%s, %s)" % (g.lst([g.lst([fld(f) for f in r]) for r in h["csv"]]), g.lst([hx(l) for l in h["labels"]]))
                  for h in c.get("pre", [])])
-    return "mkE %s %s %s %s %s %s %s %s" % (g.nat(c["nw"]), pre, recs, hx(c["text"]), asis, post, gets, patches)
+    return "mkE %s %s %s %s %s %s %s %s %s %s" % (g.nat(c["nact"]), optn(c.get("mstart")), g.nat(c["nw"]), pre, recs, hx(c["text"]),
+                                                 asis, post, gets, patches)
 
 
 def run(ctx):
+    import glob, os
+    for f in glob.glob(os.path.join(os.path.dirname(os.path.dirname(os.path.dirname(os.path.abspath(__file__)))), "coq", "gen", "cases_C13_*")):
+        os.remove(f)          # shards of an earlier run (their number varies)
     ctx.build_harness()
     lines = ctx.run_harness("C13", [ctx.tier])
     gcs = [l for l in lines if l.get("kind") == "gc"]
     e2es = [l for l in lines if l.get("kind") == "e2e"]
+    wrs = [l for l in lines if l.get("kind") == "wr"]
     for l in lines:
         k = l.get("kind")
         if k == "oracle":
@@ -62,29 +77,50 @@ def run(ctx):
     if not any(l.get("kind") == "stat" for l in lines):
         ctx.oblige("harness ran to completion", False, (ctx.last_harness.stderr or "")[-800:])
         ctx.broken.append("harness C13 did not run to completion")
-    ctx.check_theorems("Properties/C13.v")
-    nshards = 0
-    stable = modelled = 0
+    # every coqc run (the property file and each generated shard) is independent: up to 4 at a time (as C09 does)
+    jobs = [lambda: ctx.check_theorems("Properties/C13.v")]
+
+    def shard_job(name, typ, fn, items, shard, note):
+        def job():
+            body = g.HEADER + IMPORTS
+            body += "Definition cases : list %s := [\n  " % typ + ";\n  ".join(items) + "\n].\n"
+            body += "Definition M := Eval vm_compute in %s cases.\nPrint M.\n" % fn
+            idx = ctx.correspondence(name, body, ncases=len(shard))
+            if idx:
+                for i in idx[:5]:
+                    ctx.notes.append(note(shard[i]))
+        jobs.append(job)
+
+    # end-to-end summaries first (the longest jobs); shards balanced by the number of rows looked up
+    eshards, shard, vol = [], [], 0
+    for c in e2es:
+        shard.append(c)
+        vol += 4 + len(c.get("gets", [])) + len(c.get("patches", [])) + sum(len(h["labels"]) for h in c.get("pre", []))
+        if len(shard) >= ESHARD or vol >= EVOLUME:
+            eshards.append(shard)
+            shard, vol = [], 0
+    if shard:
+        eshards.append(shard)
+    for si, shard in enumerate(eshards):
+        shard_job("cases_C13_e2e_%d" % si, "e2e", "emismatches", [e2e_term(c) for c in shard], shard,
+                  lambda c: {"e2e_mismatch": {"class": c["class"], "actions": c.get("nact"),
+                                              "text": bytes.fromhex(c["text"]).decode("latin-1")[:600],
+                                              "post": c.get("post"), "gets": c.get("gets"), "patches": c.get("patches")}})
     for si, shard in enumerate(g.chunks(gcs, GSHARD)):
-        body = g.HEADER + IMPORTS
-        body += "Definition cases : list fld := [\n  " + ";\n  ".join(fld(c) for c in shard) + "\n].\n"
-        body += "Definition M := Eval vm_compute in gmismatches cases.\nPrint M.\n"
-        idx = ctx.correspondence("cases_C13_gocast_%d" % si, body, ncases=len(shard))
-        nshards += 1
-        if idx:
-            for i in idx[:8]:
-                ctx.notes.append({"gocast_mismatch": bytes.fromhex(shard[i]["s"]).decode("latin-1"), "real": shard[i]})
-    for si, shard in enumerate(g.chunks(e2es, ESHARD)):
-        body = g.HEADER + IMPORTS
-        body += "Definition cases : list e2e := [\n  " + ";\n  ".join(e2e_term(c) for c in shard) + "\n].\n"
-        body += "Definition M := Eval vm_compute in emismatches cases.\nPrint M.\n"
-        idx = ctx.correspondence("cases_C13_e2e_%d" % si, body, ncases=len(shard))
-        nshards += 1
-        if idx:
-            for i in idx[:5]:
-                c = shard[i]
-                ctx.notes.append({"e2e_mismatch": {"class": c["class"], "text": bytes.fromhex(c["text"]).decode("latin-1")[:600],
-                                                   "post": c.get("post"), "gets": c.get("gets"), "patches": c.get("patches")}})
+        shard_job("cases_C13_gocast_%d" % si, "fld", "gmismatches", [fld(c) for c in shard], shard,
+                  lambda c: {"gocast_mismatch": bytes.fromhex(c["s"]).decode("latin-1"), "real": c})
+    # the explorer side of the Actions cell: the text the real compressor wrote for an action set of n actions
+    for si, shard in enumerate(g.chunks(wrs, 2000)):
+        shard_job("cases_C13_written_%d" % si, "wcase", "wmismatches",
+                  ["mkW %s 0x%x%%N %s" % (g.nat(c["n"]), int(c["set"]), hx(c["text"])) for c in shard], shard,
+                  lambda c: {"written_mismatch": {"actions": c["n"], "set": c["set"],
+                                                  "text": bytes.fromhex(c["text"]).decode("latin-1")}})
+    nshards = len(jobs) - 1
+    from concurrent.futures import ThreadPoolExecutor
+    with ThreadPoolExecutor(max_workers=4) as ex:
+        for f in [ex.submit(j) for j in jobs]:
+            f.result()
+    ctx.obligations.sort(key=lambda o: o[0])      # the jobs finish in any order
     distinct_gc = len({c["s"] for c in gcs})
     distinct_rows = len({(bytes.fromhex(c["text"]).decode("latin-1")) for c in e2es if c.get("post") == "200"})
     n_gets = sum(len(c.get("gets", [])) for c in e2es)
@@ -104,23 +140,39 @@ def run(ctx):
                 "summary FILES written by the real scenario.Saver driven as the Runner drives it (ONE saver, SetDecompressionModel once, one "
                 "FinishedAnnealing event per run with CompressedModel (Kirkpatrick family) or ModelArchive (Suppapitnarm family), RunNumber 1..3, "
                 "CSV/Summary into a private temp dir): every file of every run posted to a fresh engine, "
+                "GENERATED catchments (catchSizedDataset, loaded through the real loader) whose number of management actions sits on and around the "
+                "64-bit word boundaries of the action encoding (%s): the REAL explorer (cremexplorer loader + interpreter + "
+                "Scenario.Run() in a child process) run once per annealer family (Kirkpatrick, Suppapitnarm), the summary FILE it writes posted to a "
+                "fresh engine configured with the SAME scenario text (POST /scenario, POST /solutions, GET /solutions/<label> for every row, PATCH /model "
+                "{Encoding} + GET /model for every row), plus one marshalled summary per catchment with the real values of the action sets that fill / "
+                "straddle the words (all actions, the last one only, actions 0/62/63/64/65/127/128/191/192 alone, all but one word, random) posted after "
+                "an earlier summary under the same labels; for every served solution and every patched model the ACTIVE ACTIONS (as flags over the "
+                "scenario's action list) and the model's own Encoding attribute are compared with the Coq model (SummaryActions.v on C09's "
+                "BooleanArchive / ModelCompressor model, ParetoFrontMember decided on the text the MODEL re-encodes to) and with an independent Go "
+                "decoder/encoder; every Actions text the real compressor wrote for a known action set is compared with ActionCodec.encoding_of, "
                 "the former D9 / stale-pool refutation witnesses as positive regression cases (1E3, F, 1E0, 1000000, 9E9, 0012; summaries re-posted "
                 "on one engine with re-used labels after every label had been fetched), "
                 "and malformed relatives (wrong as-is values, first row not As-Is, non-hex encoding, boolean note, duplicate labels, a variable "
                 "column missing, an unknown variable column); for every "
                 "summary: POST status, GET of every label (+ an unknown one, + one repeated), PATCH /model with every row's encoding. "
-                "distinct_nontrivial = distinct strings in (1) + distinct accepted summaries in (2)" % (3 if ctx.tier == "quick" else 4),
+                "distinct_nontrivial = distinct strings in (1) + distinct accepted summaries in (2)" % (
+                    3 if ctx.tier == "quick" else 4,
+                    "63, 64, 65, 127, 128, 129, 192, 1, 2" if ctx.tier == "quick" else "1, 2, 3, 13, 62..66, 127..129, 191..193, 256, 320 and six random counts below 200"),
         "exhaustive": True,
         "exhaustive_part": "all strings up to length %d over [0-9A-F:] for the caster/formatter model" % (3 if ctx.tier == "quick" else 4),
         "correspondence_shards": nshards,
         "gocast_strings": len(gcs), "e2e_summaries": len(e2es), "labels_fetched": n_gets, "encodings_patched": n_patches,
+        "written_encodings": len(wrs),
+        "action_counts_end_to_end": sorted({c["nact"] for c in e2es}),
+        "explorer_summaries_on_generated_catchments": len([c for c in e2es if c["class"].startswith("explorer_")]),
     })
     ctx.samples = [{"gocast": bytes.fromhex(c["s"]).decode("latin-1"), "tag": c["t"]} for c in gcs[200:203]] + \
                   [{"summary": bytes.fromhex(c["text"]).decode("latin-1")[:300], "post": c.get("post"),
                     "gets": [x["obs"] for x in c.get("gets", [])]} for c in e2es[:2]]
     ctx.assumptions = [
         "encoding/csv reads the marshalled text of csv-safe fields back as those fields (checked per summary: model records = reader records)",
-        "BooleanArchive Decode/Encoding are C09's subject: the pool entry is modelled by the encoding text handed to AddSolution; recode = Encoding(Decode e) is supplied per case by the real archive code",
+        "BooleanArchive Decode/Encoding are C09's model (BoolArchive.v / ActionCodec.v): the flags of a pooled / patched model and its re-encoded text are COMPUTED by that model for the scenario's action count and compared with what the engine serves; the implementation's own Encoding(Decode e) on a clone is only compared with it",
+        "the explorer seeds itself from the clock: the summaries written for the generated catchments differ from run to run (the case file carries the text; VERIF_SEED fixes the catchments)",
         "float equality of the as-is check is modelled on exact values of the floats (A-FLOAT, DESIGN section 3)",
         "theorems hold for every caster/formatter that agrees with go_cast/go_fmt_v on their modelled domain (tied exhaustively on short strings over [0-9A-F:])",
     ]
